@@ -671,7 +671,7 @@ def shrink(case):
 
 
 MANIFEST = dict(
-    text=('Proof (Coq, 11 theorems, all closed under the global context): the whole request-body pipeline (BodyMixin._body, '
+    text=('Proof (Coq, 12 theorems, all closed under the global context): the whole request-body pipeline (BodyMixin._body, '
           '_get_body_string, json, POST/forms/files, BaseRequest._raise with DefaultConfig.errors_map, the streaming multipart '
           'parser, FieldStorage) is one total function coq/model/BodyPipeline.v:process in which every raising Python '
           'operation is a ServerFault constructor unless the code routes it through _raise. C12_no_server_fault: for ALL json '
